@@ -157,7 +157,10 @@ func HashAbstract(on bool)      {}
 func PermuteMaps(fn string)     {}
 func Preemptions(n int)         {}
 func PreemptIn(fn string)       {}
-func Yield()                    {}
+func Yield()                    { yieldNative() }
+
+// Slow makes the caller take longer than the server's lock lease (native demonstrations only).
+func Slow() { slowNative() }
 func Concretize(x int) int      { return x }
 func ConcretizeU64(x uint64) uint64 { return x }
 func IsConcrete(x any) bool     { return true }
